@@ -394,6 +394,45 @@ def full_stack_case(tid, writer, npre, ndeliver, nduring, nafter, cuts):
     return rec
 
 
+def paused_burst_case(tid, writer, then):
+    """Back-pressure on the receiving side meets records that have already been read: the receiving application pauses its subchannel
+    from inside its first dataReceived() while more DATA - and the CLOSE - of the same subchannel are in the same TCP segment (pausing
+    the peer connection only stops future reads); it resumes later (`then` = "resume"), or the connection is replaced first and the
+    rest re-sent behind the next KCM (`then` = "reconnect")."""
+    run = L4Run(writer, tid * 2 + 1, real=True)
+    w = run.w
+    state = {"p": None}
+
+    def hook(proto):
+        if state["p"] is None:
+            state["p"] = proto
+            proto.transport.pauseProducing()
+    w.data_hooks[(run.b, "p#in1")] = hook
+    try:
+        for k in (0, 1, 2, 5):
+            run.do(("AppSend", k))
+        c = w.pending.get(writer)
+        t = c.link.ends[c.end]
+        if len(t.out) > 1:
+            t.out[:] = [b"".join(t.out)]            # one segment
+        w.pump()
+        if then == "reconnect":
+            run.do(("Cut",))
+            w.observe_loss(run.a)
+            w.observe_loss(run.b)
+            run.do(("ReconnectA", 0))
+            if w.can_select(run.b):
+                run.do(("SelectB", 0))
+            w.pump()
+        if state["p"] is not None and state["p"].transport is not None:
+            state["p"].transport.resumeProducing()
+        w.pump()
+    except Exception as e:
+        run.errors.append("paused-burst: %s: %s" % (type(e).__name__, str(e)[:100]))
+    run.schedule.insert(0, ["paused-burst", writer, then])
+    return run.finish(tid)
+
+
 def early_open_case(tid, writer, nlate):
     """Subchannels asked for before there is a connection, on the whole stack: `writer`'s application calls connect() right
     after dilate() (the OPEN waits for the first connection) and, from its when_dilated() callback, `nlate` more times.  Each
@@ -1296,6 +1335,16 @@ def run(prop, tier):
                     records.append(rec)
                     meta[tid] = {"schedule": [["early-open", writer, nlate]], "direction": writer, "real_l2": True, "late_listen": None}
             cov["full_stack_cases"] = n
+            n = 0
+            for writer in ("L", "F"):
+                for then in (("resume", "reconnect") if writer == "L" else ("resume",)):      # (ReconnectA: the writer is the Leader)
+                    tid += 1
+                    n += 1
+                    rec = paused_burst_case(tid, writer, then)
+                    rec["origin"], rec["config"] = "family:paused-burst", "real-l2"
+                    records.append(rec)
+                    meta[tid] = {"schedule": [["paused-burst", writer, then]], "direction": writer, "real_l2": True, "late_listen": None}
+            cov["paused_burst_cases"] = n
         if prop == "C10":
             cov["echo"] = {"runs_with_answers": sum(1 for r_ in records if any(x["got"] for x in r_.get("echoes", []))),
                            "answers_received": sum(len(x["got"]) for r_ in records for x in r_.get("echoes", []))}
